@@ -120,8 +120,39 @@ def cover_ok(ob: Obligation):
     return s.check() != z3.unsat
 
 
+def _second_opinion(smt2: str, strings: bool):
+    """Ask the two external solvers independently (cvc5 1.0 and z3 4.8 CLIs) about a query z3 5.1 answered unsat.
+    -> {'cvc5-1.0.3': 'unsat'|'sat'|'unknown', 'z3-4.8.12': ...}"""
+    import re as _re
+    out = {}
+    smt2_cvc5 = '(set-logic ALL)\n' + _re.sub(r'\(_ Char (\d+)\)', lambda m: '(_ char #x%X)' % int(m.group(1)), smt2)
+    for name, text, cmd in (('cvc5-1.0.3', smt2_cvc5, ['/usr/bin/cvc5', '--tlimit=20000'] + (['--strings-exp'] if strings else [])),
+                            ('z3-4.8.12', smt2, ['/usr/bin/z3', '-T:20'])):
+        with tempfile.NamedTemporaryFile('w', suffix='.smt2', delete=False, dir=os.environ.get('PYVC_TMP', None)) as f:
+            f.write(text)
+            path = f.name
+        try:
+            r = subprocess.run(cmd + [path], capture_output=True, text=True, timeout=30)
+            first = (r.stdout.strip().splitlines() or ['unknown'])[0].strip()
+            out[name] = first if first in ('sat', 'unsat') else 'unknown'
+        except (subprocess.TimeoutExpired, FileNotFoundError):
+            out[name] = 'unknown'
+        finally:
+            try:
+                os.unlink(path)
+            except OSError:
+                pass
+    return out
+
+
+CROSSCHECK = {'asked': 0, 'agree': 0, 'unknown': 0, 'disagree': []}
+
+
 def discharge(obligations: list[Obligation], sample_smt2=2):
-    """Group per name; an obligation is discharged iff every path instance is unsat."""
+    """Group per name; an obligation is discharged iff every path instance is unsat.
+    PYVC_CROSSCHECK=N (thorough tier): the first instance of up to N discharged obligations per scenario is put to cvc5 and z3 4.8 as
+    well; a 'sat' from either turns the verdict into *undecided* (solvers disagree) -- never into a violation."""
+    budget = int(os.environ.get('PYVC_CROSSCHECK', '0') or 0)
     by_name: dict[str, list[Obligation]] = {}
     for ob in obligations:
         by_name.setdefault(ob.name, []).append(ob)
@@ -160,6 +191,21 @@ def discharge(obligations: list[Obligation], sample_smt2=2):
         if status == 'discharged' and not covered:
             v.status = 'undecided'
             v.reason = 'vacuous: no path instance has a satisfiable path condition'
+        if v.status == 'discharged' and budget > 0:
+            budget -= 1
+            text = _smt2(obs[0].pc, obs[0].goal)
+            ans = _second_opinion(text, 'String' in text or 'str.' in text)
+            CROSSCHECK['asked'] += 1
+            if 'sat' in ans.values():
+                CROSSCHECK['disagree'].append(name)
+                v.status = 'undecided'
+                v.reason = f'solvers disagree: z3-5.1.0 unsat, {ans}'
+                v.smt2 = text
+            elif 'unsat' in ans.values():
+                CROSSCHECK['agree'] += 1
+                v.backend += '+confirmed:' + '/'.join(k for k, a in ans.items() if a == 'unsat')
+            else:
+                CROSSCHECK['unknown'] += 1
         verdicts.append(v)
         if len(samples) < sample_smt2 and status == 'discharged':
             samples.append({'obligation': name, 'smt2_head': _smt2(obs[0].pc, obs[0].goal)[:1500]})
